@@ -25,7 +25,7 @@ def build_schema(rng, n_consts, ops, octal=True):
     lines = []
     for i in range(n_consts):
         name = 'K%d' % i
-        t, v = exprs.gen_tree(rng, env, depth=rng.randint(1, 4), ops=ops)
+        t, v = exprs.gen_tree(rng, env, depth=rng.randint(1, 4), ops=ops, bound=1 << 62)
         text = exprs.render(rng, t, octal=octal)
         lines.append('const %s = %s;' % (name, text))
         items.append(('const', name, t, text, v, dict(env)))
@@ -143,7 +143,7 @@ def build_isar(rng, n_consts, ops, c_safe):
 
     for i in range(n_consts):
         name = 'K%d' % i
-        t, v = exprs.gen_tree(rng, env, depth=rng.randint(1, 3), ops=ops)
+        t, v = exprs.gen_tree(rng, env, depth=rng.randint(1, 3), ops=ops, bound=1 << 62)
         text = text_of(t)
         consts.append('<constant name=%s value=%s/>' % (quoteattr(name), quoteattr(text)))
         items.append(('const', name, t, text, v, dict(env)))
